@@ -1,10 +1,11 @@
 import TantivyModel.Proofs.GC
 import TantivyModel.Proofs.Storage
+import TantivyModel.Proofs.CommitProtocol
 /-!
 # C10 — Garbage collection never removes a needed file and leaves no orphan
 -/
 namespace TantivyModel.C10
-open TantivyModel.Storage TantivyModel.GC
+open TantivyModel.Storage TantivyModel.GC TantivyModel.CommitProtocol
 
 /-- **GC is safe under every interleaving**: for every state in which no GC is in flight (or one
 that satisfies the in-flight invariant) and every sequence of events of the other threads that
@@ -504,5 +505,159 @@ example : MetaSource fdemo [60, 61] := .fresh _ (by decide)
 
 /-- the source has exactly the constructor sites the three cases cover -/
 theorem C10_meta_sources_extracted : Gen.META_SOURCE_SITES = [2, 2] := by decide
+
+/-! ## where files are opened for writing, where metas are made (extracted) -/
+
+/-- what the extractor found about where files are opened for writing and where metas are made:
+every non-test `open_write` outside `src/directory` is `Segment::open_write(<component>)` with a
+component of the iterator (which opens `self.meta.relative_path(component)` of the meta the
+`Segment` holds), and every `new_segment_meta` call is of a classified kind -/
+theorem C10_open_write_sites_extracted :
+    Gen.OPEN_WRITE_OTHER_SITES = 0 ∧ Gen.SEGMENT_OPEN_WRITE_SITES.all (fun c => decide (c < Gen.NUM_COMPONENTS)) = true ∧
+    Gen.NEW_SEGMENT_META_CALLS.all (fun k => k == 1 || k == 2) = true := by decide
+
+/-- every file a `Segment` opens for writing is listed by the meta it holds (the temp store only
+while it is tracked: it is opened once, right after `new_segment_meta`, where the flag is true) -/
+theorem C10_segment_open_write_is_listed (m : SegMetaM) (c : Nat) (hc : c < Gen.NUM_COMPONENTS)
+    (ht : c = Gen.TEMPSTORE_INDEX → m.includeTemp = true) : relPathM m c ∈ listFilesM m := by
+  unfold listFilesM
+  apply List.mem_map.mpr
+  refine ⟨c, List.mem_filter.mpr ⟨List.mem_range.mpr hc, ?_⟩, rfl⟩
+  by_cases h : c = Gen.TEMPSTORE_INDEX
+  · simp [ht h]
+  · simp [h]
+
+/-- **registration-before-create at the event level, from the code shape**: an `openWrite` issued
+through a `Segment` whose meta is alive (its file list is in the inventory) satisfies the
+discipline of `C10_gc_safe` — whatever names are interned how. With
+`C10_open_write_sites_extracted` (there is no other way to open a file for writing) the
+assumption "a file is opened for writing only while a live meta lists it" is derived. -/
+theorem C10_open_write_through_segment_ok (s : St) (ι : Nat × Nat × Nat → Path) (m : SegMetaM) (c : Nat)
+    (hc : c < Gen.NUM_COMPONENTS) (ht : c = Gen.TEMPSTORE_INDEX → m.includeTemp = true)
+    (hlive : (listFilesM m).map ι ∈ s.live) : okEv s (.openWrite (ι (relPathM m c))) = true := by
+  simp only [okEv, living, List.contains_eq_mem, List.mem_cons, List.mem_flatten, decide_eq_true_eq]
+  exact Or.inr ⟨_, hlive, List.mem_map.mpr ⟨_, C10_segment_open_write_is_listed m c hc ht, rfl⟩⟩
+
+example : relPathM ⟨3, 9, false⟩ 7 ∈ listFilesM ⟨3, 9, false⟩ :=
+  C10_segment_open_write_is_listed _ 7 (by decide) (by decide)
+example : relPathM ⟨3, 9, false⟩ Gen.TEMPSTORE_INDEX ∉ listFilesM ⟨3, 9, false⟩ := by decide
+example : Gen.SEGMENT_OPEN_WRITE_SITES.length = 9 := by decide
+
+/-- the image of finding S2 is a crash image in the sense of the fault model -/
+theorem C10_managed_rename_counterexample_is_crash_image :
+    CrashImage (Dir.empty.run s2Trace)
+      (LImage.toImage { files := [(2, some (5, false))],
+                        atoms := [(META, some ⟨0, 1, 90, []⟩), (MANAGED, some ⟨0, 0, 14, [0]⟩)] }) :=
+  crashImages_sound _ (cover_empty.run _) _ C10_managed_rename_counterexample.1
+
+/-- **a collection spares what the newest meta.json references** (link between the GC model and
+the commit protocol): whatever `fullGC` deletes (with any failing deletes) is not living; so if
+the files of the committed metas are living — the segment manager holds those metas — no deleted
+path is `meta.json` or referenced by that meta: the side condition `WOk (.gc …)` / `hdels` of the
+C01 writer events is a consequence of the GC model, not an extra assumption. -/
+theorem C10_collection_spares_committed (g : St) (fails : List Path) (refs : List Path)
+    (hlive : ∀ p ∈ refs, p ∈ living g) :
+    ∀ p ∈ (fullGC g fails).deleted, p ≠ META ∧ p ∉ refs := by
+  intro p hp
+  have hnl := ((mem_fullGC_deleted g fails p).mp hp).2.1
+  refine ⟨?_, fun hr => hnl (hlive p hr)⟩
+  intro e
+  apply hnl
+  simp [living, e]
+
+/-- the collection event of the writer model whose deletes are what the GC model selects -/
+theorem C10_gc_event_ok (s : PState) (g : St) (fails : List Path) (mg : Payload)
+    (hlive : ∀ m, metaCands s = [m] → ∀ p ∈ m.refs, p ∈ living g) :
+    WOk s (.gc mg (fullGC g fails).deleted) := by
+  intro m hm
+  exact C10_collection_spares_committed g fails m.refs (hlive m hm)
+
+example : ∀ p ∈ (fullGC demo []).deleted, p ≠ META ∧ p ∉ [10, 11] :=
+  C10_collection_spares_committed demo [] [10, 11] (by decide)
+
+/-- `ManagedDirectory::atomic_write(meta.json)` in the EXTRACTED order (register, then write)
+satisfies R4 whenever the new managed list contains `meta.json` -/
+theorem C10_atomic_write_registers_first (s : Dir) (mg b : Payload) (hm : META ∈ mg.refs) :
+    MetaRegDisc s (managedAtomicWriteOps Gen.MANAGED_ATOMIC_WRITE_STEPS mg META b) := by
+  have ho : Gen.MANAGED_ATOMIC_WRITE_STEPS = [1, 2] := by decide
+  rw [ho]
+  have hMM : MANAGED ≠ META := by decide
+  refine ⟨⟨fun e => absurd e hMM, fun _ _ => hm⟩, ⟨fun _ => ?_, fun e => absurd e.symm hMM⟩, trivial⟩
+  simp [visibleManaged, Dir.step, AtomSt.visible, hm]
+
+/-- **`hmeta` derived**: along every trace from the empty directory that respects R4, in every
+crash image whose `.managed.json` is the newest one and which contains a `meta.json`, that
+`.managed.json` exists and lists `meta.json` — the last hypothesis of
+`C10_after_crash_registered` that was assumed. -/
+theorem C10_meta_json_is_managed (t : List Op) (hd : MetaRegDisc Dir.empty t) (k : Nat) (img : Image)
+    (hi : CrashImage (Dir.empty.run (t.take k)) img)
+    (hm : img.atom MANAGED = ((Dir.empty.run (t.take k)).atom MANAGED).visible)
+    (hx : img.atom META ≠ none) : ∃ b, img.atom MANAGED = some b ∧ META ∈ b.refs := by
+  have h0 : MInv Dir.empty := by
+    intro h; simp [Dir.empty] at h
+  have hinv := h0.run _ (metaRegDisc_take _ t k hd)
+  have hopt := hi.2 META
+  have hex : ((Dir.empty.run (t.take k)).atom META).dur ≠ none ∨ ((Dir.empty.run (t.take k)).atom META).pend ≠ [] := by
+    unfold AtomSt.options at hopt
+    rcases List.mem_cons.mp hopt with e | e
+    · left; rw [← e]; exact hx
+    · right
+      intro hp
+      rw [hp] at e
+      simp at e
+  have hin := hinv hex
+  unfold visibleManaged at hin
+  rw [← hm] at hin
+  cases hb : img.atom MANAGED with
+  | none => simp [hb] at hin
+  | some b => exact ⟨b, rfl, by simpa [hb] using hin⟩
+
+example : MetaRegDisc Dir.empty
+    [.atomicWrite MANAGED ⟨0, 0, 14, [0]⟩, .syncDir, .atomicWrite META ⟨0, 1, 90, []⟩, .syncDir,
+     .atomicWrite MANAGED ⟨0, 2, 30, [0, 2]⟩, .create 2] := by
+  simp [MetaRegDisc, MetaRegOK, Dir.step, Dir.empty, visibleManaged, AtomSt.visible, AtomSt.sync, upd, MANAGED, META]
+
+example : ¬ MetaRegDisc Dir.empty (managedAtomicWriteOps [2, 1] ⟨0, 0, 14, [0]⟩ META ⟨0, 1, 90, []⟩) := by
+  simp [managedAtomicWriteOps, MetaRegDisc, MetaRegOK, Dir.empty, visibleManaged, AtomSt.visible, META]
+
+
+/-- **after a crash, no hypothesis left but the disciplines**: for every trace from the empty
+directory that respects R1–R4 (all decided on the real log, and derived for
+`ManagedDirectory::open_write` / `atomic_write` from their extracted step order), every prefix and
+every crash image that still has a `meta.json` and whose `.managed.json` is the newest one,
+recovery followed by one complete collection leaves no orphan. -/
+theorem C10_after_crash_no_orphans (t : List Op) (hd : RegDisc Dir.empty t) (hd4 : MetaRegDisc Dir.empty t)
+    (k : Nat) (img : LImage) (hn : (img.files.map Prod.fst).Nodup)
+    (hi : CrashImage (Dir.empty.run (t.take k)) img.toImage)
+    (hm : lookupD img.atoms MANAGED = ((Dir.empty.run (t.take k)).atom MANAGED).visible)
+    (hx : lookupD img.atoms META ≠ none) :
+    ∀ p ∈ (fullGC (ofImage img) []).dir, p ∈ living (ofImage img) :=
+  C10_after_crash_registered t hd k img hn hi hm (C10_meta_json_is_managed t hd4 k img.toImage hi hm hx)
+
+/-- no orphans at quiescence, for the event-level collection: after `gcCompute`, one successful
+`gcDelete` per selected path and `gcFinish`, every remaining file is living -/
+theorem C10_no_orphans_small_step (s : St) (hreg : ∀ p ∈ s.dir, p ∈ s.managed) :
+    ∀ p ∈ (s.run (fullGCSteps s [])).dir, p ∈ living s := by
+  intro p hp
+  exact C10_no_orphans_quiescent s hreg p (((C10_small_step_refines_fullGC s []).1 p).mp hp)
+
+example : ∀ p ∈ (demo.run (fullGCSteps demo [])).dir, p ∈ living demo :=
+  C10_no_orphans_small_step demo (by decide)
+
+/-!
+## OPEN (not proved; tied to the code by the run only)
+
+* OPEN: the lock semantics used by `okF` (RwLock of `MetaInformation`, META_LOCK as an exclusive
+  file lock) and the census inventory ("lists exactly the live tracked objects") are modelled,
+  not verified.
+* OPEN: that a `Segment` keeps its `SegmentMeta` alive while it writes (hypothesis `hlive` of
+  `C10_open_write_through_segment_ok`) rests on Rust ownership; which `MetaSource` case each
+  `tracked.map` / deserialize site falls in is by reading (the sites and the kinds of the
+  `new_segment_meta` calls are extracted).
+* OPEN (false as stated, see `C10_managed_rename_counterexample`): the after-crash statement for
+  crash images with an OLDER `.managed.json` — finding S2.
+* OPEN: overlapping collections (two `garbage_collect` in their delete phases at once) are
+  outside `FSt` (one selection in flight); the harness exercises them.
+-/
 
 end TantivyModel.C10
